@@ -1,126 +1,182 @@
 """C05 — set operators match datapoints by identifiers across all operands.
-Differential monitor: run() on generated operands vs. a by-key reference model written from the
-property statement."""
+Differential monitor: run() on generated (possibly nested) set expressions vs. a by-key reference model written
+from the property statement."""
 import random
 
 from vf import gen
 
 ID = "C05"
 LEVEL = "exploration"
-RULE = ("generated union/intersect (2-4 operands) and setdiff/symdiff (2 operands) over datasets sharing one "
-        "structure with partially overlapping identifier keys and conflicting measure values, operand DataFrames "
-        "with shuffled column order; run() result compared as a set of datapoints with a by-key model "
-        "(union: first operand having the key; intersect: keys in every operand, measures of the first; setdiff; "
-        "symdiff). Bucket = (operator, operand count, overlap pattern, conflicting measures, empty operand present, "
-        "nesting); a case is non-trivial when at least two operands share a key or the expected result is non-empty.")
+RULE = ("generated union/intersect (2-4 operands) and setdiff/symdiff (2 operands), possibly nested in each other, over 2-4 "
+        "datasets with the same components declared in different orders (identifiers of the same type included, "
+        "identifier-only datasets included), the same dataset possibly used twice, partially overlapping identifier keys and "
+        "conflicting measure values, DataFrame columns shuffled; run() result compared as a set of datapoints (by component "
+        "name) with a by-key model (union: first operand having the key; intersect: keys in every operand, measures of the "
+        "first; setdiff; symdiff: keys in exactly one operand). Bucket = (root operator, operand count, overlap pattern, "
+        "conflicting measures, empty operand, nesting, declaration orders differ, identifier-only); trivial = no shared key "
+        "and empty result.")
 ASSUMPTIONS = ["measures of intersect are taken from the first operand (property: 'from the retained datapoint')"]
-FLOORS = {"quick": (300, 20), "thorough": (5000, 30)}
-N = {"quick": 60, "thorough": 1500}
-SHARDS = {"quick": 16, "thorough": 16}
+FLOORS = {"quick": (300, 40), "thorough": (5000, 80)}
+N = {"quick": 45, "thorough": 1500}
+NSH = 16
 
 
 def shards(tier, seed):
-    return [{"shard": i, "n": N[tier]} for i in range(SHARDS[tier])]
+    return [{"shard": i, "n": N[tier]} for i in range(NSH)]
 
 
-def model(op, operands, nid):
-    maps = [{r[:nid]: r for r in rows} for rows in operands]
+def apply_op(op, maps):
     if op == "union":
         out = {}
         for m in maps:
             for k, r in m.items():
                 out.setdefault(k, r)
-        return list(out.values())
+        return out
     if op == "intersect":
-        return [r for k, r in maps[0].items() if all(k in m for m in maps[1:])]
+        return {k: r for k, r in maps[0].items() if all(k in m for m in maps[1:])}
     if op == "setdiff":
-        return [r for k, r in maps[0].items() if k not in maps[1]]
+        return {k: r for k, r in maps[0].items() if k not in maps[1]}
     if op == "symdiff":
-        return [r for k, r in maps[0].items() if k not in maps[1]] + [r for k, r in maps[1].items() if k not in maps[0]]
+        out = {k: r for k, r in maps[0].items() if k not in maps[1]}
+        out.update({k: r for k, r in maps[1].items() if k not in maps[0]})
+        return out
     raise ValueError(op)
 
 
-def make_case(rng):
-    comps = gen.rand_comps(rng, n_ids=(1, 2), n_meas=(1, 2))
+def ev(tree, data):
+    if isinstance(tree, str):
+        return data[tree]
+    return apply_op(tree[0], [ev(t, data) for t in tree[1]])
+
+
+def render(tree):
+    if isinstance(tree, str):
+        return tree
+    return f"{tree[0]}({', '.join(render(t) for t in tree[1])})"
+
+
+def depth(tree):
+    return 0 if isinstance(tree, str) else 1 + max(depth(t) for t in tree[1])
+
+
+def gen_tree(rng, names, d):
     op = rng.choice(["union", "union", "intersect", "intersect", "setdiff", "symdiff"])
     k = rng.randint(2, 4) if op in ("union", "intersect") else 2
-    nested = False
-    if op in ("union", "intersect") and k >= 3 and rng.random() < 0.25:
-        nested = True
-    keys = gen.key_space(rng, comps, per_id=rng.choice([2, 3, 4]))
-    operands = []
-    for i in range(k):
-        mode = rng.random()
-        if mode < 0.08:
-            n = 0
-        elif mode < 0.2:
-            n = len(keys)
+    kids = []
+    for _ in range(k):
+        if d > 0 and rng.random() < 0.3:
+            kids.append(gen_tree(rng, names, d - 1))
         else:
-            n = None
-        operands.append(gen.rand_rows(rng, comps, keys, n=n, null_p=0.15))
-    return {"comps": [list(c) for c in comps], "op": op, "operands": [[list(r) for r in o] for o in operands],
-            "nested": nested, "colseed": rng.randrange(1 << 30)}
+            kids.append(rng.choice(names))
+    return [op, kids]
 
 
-def script_of(case):
-    k = len(case["operands"])
-    names = [f"DS_{i + 1}" for i in range(k)]
-    op = case["op"]
-    if case.get("nested") and k >= 3:
-        # op(op(DS_1, DS_2), DS_3, ...) == op(DS_1, DS_2, DS_3, ...) for union and intersect by the by-key model
-        inner = f"{op}({names[0]}, {names[1]})"
-        return f"DS_r <- {op}({inner}, {', '.join(names[2:])});"
-    return f"DS_r <- {op}({', '.join(names)});"
+def make_case(rng):
+    idonly = rng.random() < 0.12
+    same_type_ids = rng.random() < 0.4
+    if same_type_ids:
+        t = rng.choice(["Integer", "String"])
+        comps = [("Id_1", t, "Identifier", False), ("Id_2", t, "Identifier", False)]
+    else:
+        comps = gen.rand_comps(rng, n_ids=(1, 2), n_meas=(0, 0))
+    if not idonly:
+        mt = rng.choice(["Integer", "Number", "String", "Boolean"])
+        nm = rng.randint(1, 2)
+        # measures of one type so that a positional mix-up of declaration orders stays type-compatible and silent
+        comps = comps + [(f"Me_{i + 1}", mt if rng.random() < 0.7 else rng.choice(["Integer", "Number", "String"]), "Measure", True) for i in range(nm)]
+    nds = rng.randint(2, 4)
+    keys = gen.key_space(rng, comps, per_id=rng.choice([2, 3]))
+    if same_type_ids:
+        # make (a, b) and (b, a) both possible keys: crosswise comparisons are then observable
+        pool = gen.ID_POOLS[comps[0][1]][:3]
+        keys = [(a, b) for a in pool for b in pool]
+    dss = []
+    for i in range(nds):
+        mode = rng.random()
+        n = 0 if mode < 0.08 else (len(keys) if mode < 0.2 else None)
+        rows = gen.rand_rows(rng, comps, keys, n=n, null_p=0.15)
+        order = list(range(len(comps)))
+        if rng.random() < 0.5:
+            rng.shuffle(order)
+        dss.append({"name": f"DS_{i + 1}", "order": order, "rows": [list(r) for r in rows]})
+    tree = gen_tree(rng, [d["name"] for d in dss], rng.choice([0, 0, 1, 2]))
+    return {"comps": [list(c) for c in comps], "dss": dss, "tree": tree, "colseed": rng.randrange(1 << 30)}
+
+
+def used(tree, acc=None):
+    acc = [] if acc is None else acc
+    if isinstance(tree, str):
+        acc.append(tree)
+    else:
+        for t in tree[1]:
+            used(t, acc)
+    return acc
 
 
 def run_case(case, emit):
     from vf import eng
     comps = [tuple(c) for c in case["comps"]]
+    names = [c[0] for c in comps]
     nid = sum(1 for c in comps if c[2] == "Identifier")
-    operands = [[tuple(r) for r in o] for o in case["operands"]]
-    k = len(operands)
     rng = random.Random(case["colseed"])
-    st = eng.structures(*[eng.mkds(f"DS_{i + 1}", comps) for i in range(k)])
-    dfs = {f"DS_{i + 1}": gen.frame(comps, operands[i], rng, shuffle_cols=True) for i in range(k)}
-    script = script_of(case)
-    expected = model(case["op"], operands, nid)
-    keysets = [set(r[:nid] for r in o) for o in operands]
-    shared = set.intersection(*keysets) if keysets else set()
-    anyshared = any(keysets[i] & keysets[j] for i in range(k) for j in range(i + 1, k))
-    conflict = any(
-        len({tuple(map(repr, m[kk][nid:])) for m in [{r[:nid]: r for r in o} for o in operands] if kk in m}) > 1
-        for kk in set().union(*keysets)) if keysets else False
-    pattern = "all-shared" if shared and all(ks == keysets[0] for ks in keysets) else (
-        "some-in-all" if shared else ("pairwise" if anyshared else "disjoint"))
-    bucket = f"{case['op']}/{k}/{pattern}/conflict={conflict}/empty={any(not o for o in operands)}/nested={case.get('nested', False)}"
-    status, res = eng.call(eng.run, script, st, dfs)
+    data, dss, dfs = {}, [], {}
+    for d in case["dss"]:
+        data[d["name"]] = {tuple(r[:nid]): tuple(r) for r in d["rows"]}
+        dss.append(eng.mkds(d["name"], [comps[i] for i in d["order"]]))
+        dfs[d["name"]] = gen.frame(comps, [tuple(r) for r in d["rows"]], rng, shuffle_cols=True)
+    tree = case["tree"]
+    script = f"DS_r <- {render(tree)};"
+    expected = list(ev(tree, data).values())
+    ops = used(tree)
+    keysets = [set(data[n]) for n in ops]
+    k = len(tree[1])
+    anyshared = any(keysets[i] & keysets[j] for i in range(len(keysets)) for j in range(i + 1, len(keysets)))
+    allkeys = set().union(*keysets)
+    conflict = any(len({data[n][kk][nid:] for n in set(ops) if kk in data[n]}) > 1 for kk in allkeys)
+    orders_differ = len({tuple(d["order"]) for d in case["dss"] if d["name"] in ops}) > 1
+    bucket = (f"{tree[0]}/{k}/shared={anyshared}/conflict={conflict}/empty={any(not ks for ks in keysets)}/depth={depth(tree)}/"
+              f"orders_differ={orders_differ}/idonly={nid == len(comps)}/repeat={len(set(ops)) < len(ops)}")
+    status, res = eng.call(eng.run, script, eng.structures(*dss), dfs)
+    arity = "2" if k == 2 and depth(tree) == 1 else (">2" if depth(tree) == 1 else "nested")
     if status == "exc":
         name, code, isvtl = eng.exc_info(res)
-        emit({"v": "viol", "b": bucket, "mech": f"{case['op']}/raises:{name}:{code}",
-              "what": f"{script} raised {name}: {str(res)[:200]}", "case": case})
+        if name == "SemanticError":
+            emit({"v": "skip", "why": f"generator_rejected {code}"})
+            return
+        emit({"v": "viol", "b": bucket, "mech": f"{tree[0]}/{arity}/raises:{name}:{code}", "what": f"{script} raised {name}: {str(res)[:200]}", "case": case})
         return
-    cols, rows, nk = eng.ds_rows(res["DS_r"])
-    want_cols = [c[0] for c in comps]
-    if cols != want_cols and sorted(cols) == sorted(want_cols):
-        idx = [want_cols.index(c) for c in cols]
-        expected = [tuple(r[i] for i in idx) for r in expected]
-    diff = eng.same_rowset(rows, expected, nk)
+    ds = res["DS_r"]
+    if sorted(ds.components) != sorted(names):
+        emit({"v": "viol", "b": bucket, "mech": f"{tree[0]}/{arity}/result-components", "what": f"{script}: components {list(ds.components)} expected {names}", "case": case})
+        return
+    got = eng.rows_of(ds.data, names)
+    diff = eng.same_rowset(got, expected, nid)
     if diff is None:
-        rec = {"v": "held", "b": bucket}
+        rec = {"v": "held", "b": bucket if (anyshared or expected) else "trivial"}
         if anyshared or expected:
-            rec["sample"] = {"script": script, "operand_keys": [sorted(map(str, ks)) for ks in keysets][:4],
-                             "result_rows": len(rows)}
-        else:
-            rec["b"] = "trivial"
+            rec["sample"] = {"script": script, "declared_orders": [d["order"] for d in case["dss"]], "result_rows": len(got)}
         emit(rec)
     else:
-        mech = f"{case['op']}/arity={'2' if k == 2 else '>2'}/wrong-datapoints"
-        emit({"v": "viol", "b": bucket, "mech": mech, "what": f"{script}: {diff}", "case": case})
+        rep = "/same-subexpression-twice" if _has_twin(tree) else ""
+        emit({"v": "viol", "b": bucket, "mech": f"{tree[0]}/{arity}/wrong-datapoints/orders_differ={orders_differ}{rep}", "what": f"{script}: {diff}", "case": case})
+
+
+def _has_twin(tree):
+    """some operator node has two identical non-leaf operands (e.g. symdiff(intersect(A,B,C), intersect(A,B,C)))"""
+    if isinstance(tree, str):
+        return False
+    kids = [repr(t) for t in tree[1] if not isinstance(t, str)]
+    return len(kids) != len(set(kids)) or any(_has_twin(t) for t in tree[1])
 
 
 def run_shard(spec, emit):
+    from vf import eng
     rng = random.Random(f"C05-{spec['seed']}-{spec['shard']}")
+    bud = eng.Budget(spec.get("budget_s", 100 if spec["tier"] == "quick" else 2400))
     for _ in range(spec["n"]):
+        if not bud.ok():
+            emit({"v": "inc", "why": "cut by wall-clock budget"})
+            break
         run_case(make_case(rng), emit)
 
 
